@@ -59,6 +59,8 @@ def val(w: World, v):
     if isinstance(v, dict) and "np" in v:
         # a numpy scalar instead of a Python number (legal everywhere a number is)
         return getattr(np, v["np"])(v["v"])
+    if isinstance(v, dict) and "cx" in v:
+        return complex(*v["cx"])
     return v
 
 
@@ -78,6 +80,8 @@ def plain(v):
     """The Python number a (possibly numpy-typed) constant stands for."""
     if isinstance(v, dict) and "np" in v:
         return v["v"]
+    if isinstance(v, dict) and "cx" in v:
+        return complex(*v["cx"])
     return v
 
 
@@ -232,7 +236,33 @@ def _new_unitary(w, o):
     c = w.call(lw.Unitary, u, *( [o["label"]] if "label" in o else []))
     w.put("c", o["out"], c, params=set(),
           log=[["unitary", o["n"], o["seed"], o.get("kind", "haar")]])
+    # the caller keeps its array (and may reuse the buffer later)
+    w.extra.setdefault("caller_arrays", {})[o["out"]] = u
     return c.n_modes
+
+
+@op("caller_mutate")
+def _caller_mutate(w, o):
+    """The caller changes, in place, a mutable object it handed to the library
+    earlier (the matrix given to Unitary, a list given to PostSelection.add).
+    No library call is made: nothing in the world may change."""
+    if o["what"] == "array":
+        arr = w.extra.get("caller_arrays", {}).get(o["c"])
+        if arr is None:
+            raise Skip("no such array")
+        arr[:] = gen_unitary(arr.shape[0], o["seed"], "haar")
+        w.stats["fault:caller_array_overwritten"] += 1
+        return None
+    lists = w.extra.get("caller_lists", {}).get(o["ps"])
+    if not lists:
+        raise Skip("no lists kept")
+    modes, ns = lists[o.get("k", 0) % len(lists)]
+    if o.get("which", "n") == "n":
+        ns.append(o.get("value", 0))
+    else:
+        modes.append(o.get("value", 0))
+    w.stats["fault:caller_list_mutated"] += 1
+    return None
 
 
 @op("lib_gate")
@@ -649,7 +679,13 @@ def _new_postsel(w, o):
     if o["kind"] == "rules":
         ps = w.call(lw.PostSelection, o.get("multi", False))
         for modes, ns in o.get("rules", []):
-            w.call(ps.add, tuple(modes), tuple(ns))
+            if o.get("as_list"):
+                ml, nl = list(modes), list(ns)
+                w.extra.setdefault("caller_lists", {}).setdefault(
+                    o["out"], []).append((ml, nl))
+                w.call(ps.add, ml, nl)
+            else:
+                w.call(ps.add, tuple(modes), tuple(ns))
         w.put("ps", o["out"], ps, pkind="rules",
               rules=[(tuple(m), tuple(n)) for m, n in o.get("rules", [])])
     else:
@@ -664,8 +700,15 @@ def _ps_add(w, o):
     if w.m("ps", o["ps"])["pkind"] != "rules":
         raise Skip("not a rule set")
     m, n = o["modes"], o["n"]
-    w.call(ps.add, tuple(m) if isinstance(m, list) else m,
-           tuple(n) if isinstance(n, list) else n)
+    if o.get("as_list") and isinstance(m, list) and isinstance(n, list):
+        # list arguments, kept (and possibly changed later) by the caller
+        ml, nl = list(m), list(n)
+        w.call(ps.add, ml, nl)
+        w.extra.setdefault("caller_lists", {}).setdefault(
+            o["ps"], []).append((ml, nl))
+    else:
+        w.call(ps.add, tuple(m) if isinstance(m, list) else m,
+               tuple(n) if isinstance(n, list) else n)
     # only an *accepted* rule is recorded by the harness
     w.m("ps", o["ps"])["rules"].append(
         (tuple(m) if isinstance(m, list) else (m,),
